@@ -97,7 +97,7 @@ pub fn run(tier: Tier) -> i32 {
                     acc.outcome(&format!("complete-probe:{}", out.class()));
                     if let Some(why) = expect_completed(&out, &PDU_Z, 0x86DD, l, pkt.len()) {
                         let cls = out.class();
-                        rep.violation(&format!("C16|complete-probe|{}", cls), ex.depth_of(i) as u64, || (format!("after the history, reset + provision, a valid complete packet with label {} is not delivered correctly: {}", l.short(), why), json!({"slots": slots, "history": hist(), "state": format!("{:?}", st.rx), "probe": hex(&pkt)})));
+                        rep.violation(&format!("C16|complete-probe|{}", cls), ex.depth_of(i) as u64, || (format!("after the history, reset + provision, a valid complete packet with label {} is not delivered correctly: {}", l.short(), why), json!({"model": format!("receiver-{}-slots", slots), "slots": slots, "history": hist(), "state": format!("{:?}", st.rx), "probe": hex(&pkt)})));
                     }
                 }
                 // (ii) fragmented PDUs
@@ -117,12 +117,12 @@ pub fn run(tier: Tier) -> i32 {
                         if let Some(why) = why {
                             let cls = format!("{}/{}/{}", o1.class(), o2.class(), o3.class());
                             let alias = if f as usize == slots { "aliasing-id" } else { "plain-id" };
-                            rep.violation(&format!("C16|train-probe|{}|{}", cls, alias), ex.depth_of(i) as u64, || (format!("after the history, reset + provision, a valid 3-fragment PDU on frag id {} with label {} is not reassembled correctly: {}", f, l.short(), why), json!({"slots": slots, "history": hist(), "state": format!("{:?}", st.rx), "probe": [hex(&p1), hex(&p2), hex(&p3)]})));
+                            rep.violation(&format!("C16|train-probe|{}|{}", cls, alias), ex.depth_of(i) as u64, || (format!("after the history, reset + provision, a valid 3-fragment PDU on frag id {} with label {} is not reassembled correctly: {}", f, l.short(), why), json!({"model": format!("receiver-{}-slots", slots), "slots": slots, "history": hist(), "state": format!("{:?}", st.rx), "probe": [hex(&p1), hex(&p2), hex(&p3)]})));
                         }
                     }
                 }
                 if rep.sample_wanted(i as u64 * 31 + slots as u64) {
-                    rep.sample(i as u64, || json!({"slots": slots, "history": hist(), "probes": "2 complete + 8 trains, all delivered"}));
+                    rep.sample(i as u64, || json!({"model": format!("receiver-{}-slots", slots), "slots": slots, "history": hist(), "probes": "2 complete + 8 trains, all delivered"}));
                 }
             }
             rep.merge(acc);
